@@ -338,6 +338,14 @@ archive_filter_lz4_close(struct archive_write_filter *f)
 	struct private_data *data = (struct private_data *)f->data;
 	int ret;
 
+	/* Nothing was written: still emit a valid (empty) frame. */
+	if (!data->header_written) {
+		ret = lz4_write_stream_descriptor(f);
+		if (ret != ARCHIVE_OK)
+			return (ret);
+		data->header_written = 1;
+	}
+
 	/* Finish compression cycle. */
 	ret = (int)lz4_write_one_block(f, NULL, 0);
 	if (ret >= 0) {
